@@ -139,14 +139,15 @@ def main():
         m["inconclusive"].append("no case was evaluated")
 
     # ---- replay files and verdict lines
-    rdir = os.path.join(common.VERIF_DIR, "evidence", "replay")
+    evdir = os.environ.get("VERIF_EVIDENCE_DIR", "evidence")  # redirected when a scratch mutant is being judged
+    rdir = os.path.join(common.VERIF_DIR, evdir, "replay")
     os.makedirs(rdir, exist_ok=True)
     lines = []
     nviol = 0
     for klass, lst in sorted(m["violations"].items()):
         for x in lst[:1]:
             hh = "%016x" % common.h64([klass, x["case"]])
-            path = os.path.join("evidence", "replay", "%s-%s.json" % (prop, hh))
+            path = os.path.join(evdir, "replay", "%s-%s.json" % (prop, hh))
             with open(os.path.join(common.VERIF_DIR, path), "w") as f:
                 json.dump({"property": prop, "class": klass, "case": x["case"], "detail": x["detail"],
                            "seed": seed, "tier": a.tier}, f, indent=1)
@@ -189,8 +190,8 @@ def main():
     if getattr(mod, "EXHAUSTIVE", {}).get(a.tier) and not m["inconclusive"]:
         ev["coverage"]["exhaustive"] = True
     ev["coverage"].update(extra)
-    os.makedirs(os.path.join(common.VERIF_DIR, "evidence"), exist_ok=True)
-    with open(os.path.join(common.VERIF_DIR, "evidence", prop + ".json"), "w") as f:
+    os.makedirs(os.path.join(common.VERIF_DIR, evdir), exist_ok=True)
+    with open(os.path.join(common.VERIF_DIR, evdir, prop + ".json"), "w") as f:
         json.dump(common.jsonable(ev), f, indent=1, sort_keys=True)
         f.write("\n")
 
